@@ -38,7 +38,7 @@ func init() {
 			"DiscardConsumer / DiscardProducer: an error, a closed stream, bytes written or an altered destination are violations; READING the stream or the payload is not (the statement has no clause about it: draining is what connection reuse wants)",
 			"overlapping calls on ONE codec instance (what Runtime.Consumers / Producers and the API's maps hold) are each judged as a call that was alone: the statement quantifies over all inputs without an exception for calls that overlap; faults are not scripted there, and the build is not a -race build (interference is seen in the bytes, the values, the close counters or as a panic)",
 			"the content above 32 MiB is not run (class content/above-32MiB/not-run-for-lack-of-memory) on a machine with less than 1 GiB (quick) / 4 GiB (thorough) of available memory: a worker killed for lack of memory would be reported as a crash of the code under test",
-			"typed-nil pointers of the kinds a consumer recognises through an interface (nil *bytes.Buffer, *strings.Builder, *bufio.Writer; nil pointers to user types whose ReadFrom / UnmarshalBinary / UnmarshalText has a pointer receiver) are destinations like any other nil pointer: an error, never a panic - the statement has no exception for a panic raised inside a method the consumer chose to call on a nil receiver. Byte-stream consumer: generated (sweep, seeded, with no reader). Text consumer: the kinds exist (nil-*textunm, nil-*textunm-strkind) but are kept out of the generator by the TRIAGE-PENDING switch triagePendingTextNilUnmarshaler in kinds.go (the unchanged tree panics there on a non-empty input: alarm reported in round 5)",
+			"typed-nil pointers of the kinds a consumer recognises through an interface (nil *bytes.Buffer, *strings.Builder, *bufio.Writer; nil pointers to user types whose ReadFrom / UnmarshalBinary / UnmarshalText has a pointer receiver) are destinations like any other nil pointer: an error, never a panic - the statement has no exception for a panic raised inside a method the consumer chose to call on a nil receiver. Byte-stream consumer: generated (sweep, seeded, with no reader). Text consumer: generated too (nil-*textunm, nil-*textunm-strkind; the panic there was repaired by 5fbb442)",
 			"both directions of the closing clause are judged on every call, refusals before the stream was used included (the code used to leave the stream open there: repaired, commit 3e4ffa7)",
 			"a destination kind the codec does not document must not panic, must not report success after silently dropping a non-empty input, and must be refused (an error) for an empty input too: the statement has no exception for empty streams (the text consumer used to accept anything then: repaired, commit 822f195); the same holds for the nil / typed-nil / non-pointer destinations of the JSON, XML and YAML consumers on an empty or blank document",
 			"a failure of the value's own MarshalBinary / MarshalText / UnmarshalBinary / UnmarshalText must come back as an error: nil would report a success that did not happen (which error is not judged)",
